@@ -19,6 +19,7 @@ type raceAccess struct {
 	write bool
 	locks string
 	where string
+	epoch int // spawner accesses: number of goroutines already started (a later `go` orders the access before that goroutine)
 }
 
 type raceMon struct {
@@ -44,9 +45,14 @@ func (in *interpreter) raceNote(addr *value, write bool, fr *frame) {
 	if fr != nil {
 		where = fr.fn.String()
 	}
-	a := raceAccess{m.curG, write, strings.Join(ls, ","), where}
+	a := raceAccess{m.curG, write, strings.Join(ls, ","), where, m.nextG}
 	for _, o := range m.acc[addr] {
 		if o.g == a.g || (!o.write && !a.write) {
+			continue
+		}
+		// the go statement happens-before the goroutine's start: what the spawner did before
+		// starting goroutine k cannot race with k
+		if (o.g == 0 && a.g > o.epoch) || (a.g == 0 && o.g > a.epoch) {
 			continue
 		}
 		common := false
